@@ -38,8 +38,11 @@ def texts(tier, seed):
     for n in (1, 2):
         out += [" ".join(c) for c in itertools.product(VOCAB, repeat=n)]
     rnd = random.Random(seed)
+    pool = VOCAB + source_literals(("parsers", "helpers", "option", "port", "protocol", "address_base", "address_ag", "ace", "acl", "ace_group", "addr_group", "remark"), 150)
     for _ in range(4000 if tier == "quick" else 40000):
-        out.append(" ".join(rnd.choice(VOCAB) for _ in range(rnd.randint(3, 7))))
+        out.append(" ".join(rnd.choice(pool) for _ in range(rnd.randint(3, 7))))
+    for t in pool[len(VOCAB):]:
+        out += [t, "permit " + t, t + " any any", "permit ip any any " + t, "10 " + t]
     for v in VALID:
         toks = v.split(" ")
         for k in range(len(toks) + 1):
@@ -56,12 +59,12 @@ def texts(tier, seed):
     return out
 
 
-def source_literals():
-    """the string constants of the configuration parser's own source (reserved keys, markers, keywords): a white-box dictionary for the line soups"""
+def source_literals(mods=("config_parser", "functions"), cap=60):
+    """the string constants of the library's own source (reserved keys, markers, keywords): a white-box dictionary for the soups"""
     import ast
     from pyvc import loader
     out = set()
-    for mod in ("config_parser", "functions"):
+    for mod in mods:
         try:
             tree = ast.parse(open(os.path.join(loader.REPO, "cisco_acl", mod + ".py")).read())
         except OSError:
@@ -69,7 +72,7 @@ def source_literals():
         for n in ast.walk(tree):
             if isinstance(n, ast.Constant) and isinstance(n.value, str) and 0 < len(n.value) <= 24 and "\n" not in n.value and not n.value.startswith("\\"):
                 out.add(n.value.strip())
-    return sorted(x for x in out if x and " " not in x.strip() or x in ("ip access-list", "object-group network"))[:60]
+    return sorted(x for x in out if x and " " not in x.strip() or x in ("ip access-list", "object-group network"))[:cap]
 
 
 def config_texts(rnd):
